@@ -124,7 +124,9 @@ class Sched:
             if run:
                 return run[0] if len(run) == 1 else self.rng.choice(run)
             q = self.on_quiescent
-            if q is not None and not self.in_hook:
+            due_now = any(t.state == "B" and t.wait_token == tok and when <= w.now
+                          for when, _, t, tok in self.timers)
+            if q is not None and not self.in_hook and not due_now:
                 self.in_hook = True
                 try:
                     q()
